@@ -56,7 +56,7 @@ def parse(
 ) -> NixSourceCode:
     """Parse Nix source code and return the root of its AST."""
     node = parse_to_ast(source_code=source_code)
-    source = NixSourceCode.from_cst(node)
+    source = NixSourceCode.from_cst(node, source_code=source_code)
     if source_path:
         source.source_path = Path(source_path)
     return source
